@@ -47,7 +47,7 @@ Definition DegreeToRadian (v_degree : float) : float :=
 Definition RadianToDegree (v_radian : float) : float :=
 (PrimFloat.mul v_radian (0x1.ca5dc1a63c1f8p+5)%float).
 
-(* shape.getHorizontalTileIdOnPoint (local lonIndex)  [shape/point.go] — the value of the local variable lonIndex when control reaches the end of the function *)
+(* shape.getHorizontalTileIdOnPoint (value lonIndex)  [shape/point.go] — the value of X in the 2nd of the 3 calls strconv.FormatInt(int64(X), 10) (`lonIndex`) just before that statement *)
 Definition getHorizontalTileIdOnPoint_lonIndex (v_lon : float) (v_lat : float) (v_hZoom : Z) : float :=
 let v_lon := if (PrimFloat.eqb v_lon (0x1.68p+7)%float)
 then (let v_lon := (PrimFloat.opp v_lon) in
@@ -61,13 +61,13 @@ v_lonIndex)
 else (v_lonIndex) in
 v_lonIndex.
 
-(* shape.getHorizontalTileIdOnPoint (local latIndex)  [shape/point.go] — the value of the local variable latIndex when control reaches the end of the function *)
+(* shape.getHorizontalTileIdOnPoint (value latIndex)  [shape/point.go] — the value of X in the 3rd of the 3 calls strconv.FormatInt(int64(X), 10) (`latIndex`) just before that statement *)
 Definition getHorizontalTileIdOnPoint_latIndex (M : libm) (v_lon : float) (v_lat : float) (v_hZoom : Z) : float :=
 let v_latRadian := (DegreeToRadian v_lat) in
 let v_latIndex := (ffloor (PrimFloat.div (PrimFloat.mul (pow2f v_hZoom) (PrimFloat.sub (0x1p+0)%float (PrimFloat.div (m_log M (PrimFloat.add (m_tan M v_latRadian) (PrimFloat.div (0x1p+0)%float (m_cos M v_latRadian)))) (0x1.921fb54442d18p+1)%float))) (0x1p+1)%float)) in
 v_latIndex.
 
-(* shape.getVerticalTileIdOnAltitude (local vIndex)  [shape/point.go] — the value of the local variable vIndex when control reaches the end of the function *)
+(* shape.getVerticalTileIdOnAltitude (value vIndex)  [shape/point.go] — the value of X in the 2nd of the 2 calls strconv.FormatInt(int64(X), 10) (`vIndex`) just before that statement *)
 Definition getVerticalTileIdOnAltitude_vIndex (v_alt : float) (v_vZoom : Z) : float :=
 let v_altResolution := (PrimFloat.div (pow2f 25) (pow2f v_vZoom)) in
 let v_vIndex := (ffloor (PrimFloat.div v_alt v_altResolution)) in
@@ -80,7 +80,7 @@ let v_vPoint_Resolution := (PrimFloat.div (pow2f 25) (pow2f v_vZoom)) in
 let v_vPoint_Alt := (PrimFloat.mul (of_Z v_altIndex) v_vPoint_Resolution) in
 (v_vPoint_Alt, v_vPoint_Resolution).
 
-(* shape.getVertexOnVoxelOffset (local latIndexFloat)  [shape/point.go] — the value of the local variable latIndexFloat when control reaches the end of the function *)
+(* shape.getVertexOnVoxelOffset (value latIndexFloat)  [shape/point.go] — the value of the local variable latIndexFloat when control reaches the end of the function *)
 Definition getVertexOnVoxelOffset_latIndexFloat (v_lonIndex : Z) (v_latIndex : Z) (v_hZoom : Z) (v_vPoint_Alt : float) (v_vPoint_Resolution : float) : float :=
 let v_hLimit := (pow2f v_hZoom) in
 let v_latIndexFloat := (of_Z v_latIndex) in
@@ -94,7 +94,7 @@ else (v_latIndexFloat) in
 v_latIndexFloat) in
 v_latIndexFloat.
 
-(* shape.getVertexOnVoxelOffset (local northLat)  [shape/point.go] — the value of the local variable northLat when control reaches the end of the function *)
+(* shape.getVertexOnVoxelOffset (value northLat)  [shape/point.go] — the value of the latitude argument of the 1st of the 8 calls object.NewPoint (`northLat`) just before that statement *)
 Definition getVertexOnVoxelOffset_northLat (M : libm) (v_lonIndex : Z) (v_latIndex : Z) (v_hZoom : Z) (v_vPoint_Alt : float) (v_vPoint_Resolution : float) : float :=
 let v_hLimit := (pow2f v_hZoom) in
 let v_latIndexFloat := (of_Z v_latIndex) in
@@ -109,7 +109,7 @@ v_latIndexFloat) in
 let v_northLat := (RadianToDegree (m_atan M (m_sinh M (PrimFloat.mul (0x1.921fb54442d18p+1)%float (PrimFloat.sub (0x1p+0)%float (PrimFloat.div (PrimFloat.mul (0x1p+1)%float v_latIndexFloat) v_hLimit)))))) in
 v_northLat.
 
-(* shape.getVertexOnVoxelOffset (local southLat)  [shape/point.go] — the value of the local variable southLat when control reaches the end of the function *)
+(* shape.getVertexOnVoxelOffset (value southLat)  [shape/point.go] — the value of the latitude argument of the 3rd of the 8 calls object.NewPoint (`southLat`) just before that statement *)
 Definition getVertexOnVoxelOffset_southLat (M : libm) (v_lonIndex : Z) (v_latIndex : Z) (v_hZoom : Z) (v_vPoint_Alt : float) (v_vPoint_Resolution : float) : float :=
 let v_hLimit := (pow2f v_hZoom) in
 let v_latIndexFloat := (of_Z v_latIndex) in
@@ -124,34 +124,34 @@ v_latIndexFloat) in
 let v_southLat := (RadianToDegree (m_atan M (m_sinh M (PrimFloat.mul (0x1.921fb54442d18p+1)%float (PrimFloat.sub (0x1p+0)%float (PrimFloat.div (PrimFloat.mul (0x1p+1)%float (PrimFloat.add v_latIndexFloat (0x1p+0)%float)) v_hLimit)))))) in
 v_southLat.
 
-(* shape.getVertexOnVoxelOffset (local westLon)  [shape/point.go] — the value of the local variable westLon when control reaches the end of the function, as a function of the parameters and of the final value of lonIndexFloat *)
+(* shape.getVertexOnVoxelOffset (value westLon)  [shape/point.go] — the value of the longitude argument of the 1st of the 8 calls object.NewPoint (`westLon`) just before that statement, as a function of the parameters and of the value of lonIndexFloat *)
 Definition getVertexOnVoxelOffset_westLon (v_lonIndex : Z) (v_latIndex : Z) (v_hZoom : Z) (v_vPoint_Alt : float) (v_vPoint_Resolution : float) (v_lonIndexFloat : float) : float :=
 let v_hLimit := (pow2f v_hZoom) in
 let v_westLon := (PrimFloat.sub (PrimFloat.div (PrimFloat.mul v_lonIndexFloat (0x1.68p+8)%float) v_hLimit) (0x1.68p+7)%float) in
 v_westLon.
 
-(* shape.getVertexOnVoxelOffset (local eastLon)  [shape/point.go] — the value of the local variable eastLon when control reaches the end of the function, as a function of the parameters and of the final value of lonIndexFloat *)
+(* shape.getVertexOnVoxelOffset (value eastLon)  [shape/point.go] — the value of the longitude argument of the 2nd of the 8 calls object.NewPoint (`eastLon`) just before that statement, as a function of the parameters and of the value of lonIndexFloat *)
 Definition getVertexOnVoxelOffset_eastLon (v_lonIndex : Z) (v_latIndex : Z) (v_hZoom : Z) (v_vPoint_Alt : float) (v_vPoint_Resolution : float) (v_lonIndexFloat : float) : float :=
 let v_hLimit := (pow2f v_hZoom) in
 let v_eastLon := (PrimFloat.sub (PrimFloat.div (PrimFloat.mul (PrimFloat.add v_lonIndexFloat (0x1p+0)%float) (0x1.68p+8)%float) v_hLimit) (0x1.68p+7)%float) in
 v_eastLon.
 
-(* shape.getVertexOnVoxelOffset (local vTopAlt)  [shape/point.go] — the value of the local variable vTopAlt when control reaches the end of the function *)
+(* shape.getVertexOnVoxelOffset (value vTopAlt)  [shape/point.go] — the value of the altitude argument of the 5th of the 8 calls object.NewPoint (`vTopAlt`) just before that statement *)
 Definition getVertexOnVoxelOffset_vTopAlt (v_lonIndex : Z) (v_latIndex : Z) (v_hZoom : Z) (v_vPoint_Alt : float) (v_vPoint_Resolution : float) : float :=
 let v_vTopAlt := (PrimFloat.add v_vPoint_Alt v_vPoint_Resolution) in
 v_vTopAlt.
 
-(* shape.getCenterPointOnVoxelOffset (local centerLon)  [shape/point.go] — the value of the local variable centerLon when control reaches the end of the function, as a function of the parameters and of the final value of lonMax, lonMin *)
+(* shape.getCenterPointOnVoxelOffset (value centerLon)  [shape/point.go] — the value of the longitude argument of the last call object.NewPoint (`centerLon`) just before that statement, as a function of the parameters and of the value of lonMax, lonMin *)
 Definition getCenterPointOnVoxelOffset_centerLon (v_lonIndex : Z) (v_latIndex : Z) (v_hZoom : Z) (v_vPoint_Alt : float) (v_vPoint_Resolution : float) (v_lonMax : float) (v_lonMin : float) : float :=
 let v_centerLon := (PrimFloat.div (PrimFloat.add v_lonMax v_lonMin) (0x1p+1)%float) in
 v_centerLon.
 
-(* shape.getCenterPointOnVoxelOffset (local centerLat)  [shape/point.go] — the value of the local variable centerLat when control reaches the end of the function, as a function of the parameters and of the final value of latMax, latMin *)
+(* shape.getCenterPointOnVoxelOffset (value centerLat)  [shape/point.go] — the value of the latitude argument of the last call object.NewPoint (`centerLat`) just before that statement, as a function of the parameters and of the value of latMax, latMin *)
 Definition getCenterPointOnVoxelOffset_centerLat (v_lonIndex : Z) (v_latIndex : Z) (v_hZoom : Z) (v_vPoint_Alt : float) (v_vPoint_Resolution : float) (v_latMax : float) (v_latMin : float) : float :=
 let v_centerLat := (PrimFloat.div (PrimFloat.add v_latMax v_latMin) (0x1p+1)%float) in
 v_centerLat.
 
-(* shape.getCenterPointOnVoxelOffset (local centerAlt)  [shape/point.go] — the value of the local variable centerAlt when control reaches the end of the function, as a function of the parameters and of the final value of altMax, altMin *)
+(* shape.getCenterPointOnVoxelOffset (value centerAlt)  [shape/point.go] — the value of the altitude argument of the last call object.NewPoint (`centerAlt`) just before that statement, as a function of the parameters and of the value of altMax, altMin *)
 Definition getCenterPointOnVoxelOffset_centerAlt (v_lonIndex : Z) (v_latIndex : Z) (v_hZoom : Z) (v_vPoint_Alt : float) (v_vPoint_Resolution : float) (v_altMax : float) (v_altMin : float) : float :=
 let v_centerAlt := (PrimFloat.div (PrimFloat.add v_altMax v_altMin) (0x1p+1)%float) in
 v_centerAlt.
@@ -175,28 +175,28 @@ then ((v_p_lon, v_p_lat, v_p_alt, true))
 else (let v_p_lat := v_lat in
 (v_p_lon, v_p_lat, v_p_alt, false)).
 
-(* transform.convertVerticallIDToBit (local spatialIDMaxHeight)  [transform/convert_quadkey_and_Vertical_id.go] — the value of the local variable spatialIDMaxHeight when control reaches the end of the function *)
+(* transform.convertVerticallIDToBit (value spatialIDMaxHeight)  [transform/convert_quadkey_and_Vertical_id.go] — the value of the altitude argument of the 1st of the 2 calls calcBitIndex (`spatialIDMaxHeight`) just before that statement *)
 Definition convertVerticallIDToBit_spatialIDMaxHeight (v_vZoom : Z) (v_vIndex : Z) (v_outputZoom : Z) (v_maxHeight : float) (v_minHeight : float) : float :=
 let v_spatialIDMaxHeight := (PrimFloat.div (PrimFloat.mul (of_Z (Z.add v_vIndex 1)) (pow2f 25)) (pow2f v_vZoom)) in
 v_spatialIDMaxHeight.
 
-(* transform.convertVerticallIDToBit (local spatialIDMinHeight)  [transform/convert_quadkey_and_Vertical_id.go] — the value of the local variable spatialIDMinHeight when control reaches the end of the function *)
+(* transform.convertVerticallIDToBit (value spatialIDMinHeight)  [transform/convert_quadkey_and_Vertical_id.go] — the value of the altitude argument of the 2nd of the 2 calls calcBitIndex (`spatialIDMinHeight`) just before that statement *)
 Definition convertVerticallIDToBit_spatialIDMinHeight (v_vZoom : Z) (v_vIndex : Z) (v_outputZoom : Z) (v_maxHeight : float) (v_minHeight : float) : float :=
 let v_spatialIDMinHeight := (PrimFloat.div (PrimFloat.mul (of_Z v_vIndex) (pow2f 25)) (pow2f v_vZoom)) in
 v_spatialIDMinHeight.
 
-(* transform.convertBitToVerticalID (local voxelHeight)  [transform/convert_quadkey_and_Vertical_id.go] — the value of the local variable voxelHeight when control reaches the end of the function *)
+(* transform.convertBitToVerticalID (value voxelHeight)  [transform/convert_quadkey_and_Vertical_id.go] — the value of the local variable voxelHeight when control reaches the end of the function *)
 Definition convertBitToVerticalID_voxelHeight (v_vZoom : Z) (v_vIndex : Z) (v_outputZoom : Z) (v_maxHeight : float) (v_minHeight : float) : float :=
 let v_voxelHeight := (PrimFloat.div (PrimFloat.sub v_maxHeight v_minHeight) (pow2f v_vZoom)) in
 v_voxelHeight.
 
-(* transform.convertBitToVerticalID (local maxAltitude)  [transform/convert_quadkey_and_Vertical_id.go] — the value of the local variable maxAltitude when control reaches the end of the function *)
+(* transform.convertBitToVerticalID (value maxAltitude)  [transform/convert_quadkey_and_Vertical_id.go] — the value of the altitude argument of the 1st of the 2 calls object.NewPoint (`maxAltitude`) just before that statement *)
 Definition convertBitToVerticalID_maxAltitude (v_vZoom : Z) (v_vIndex : Z) (v_outputZoom : Z) (v_maxHeight : float) (v_minHeight : float) : float :=
 let v_voxelHeight := (PrimFloat.div (PrimFloat.sub v_maxHeight v_minHeight) (pow2f v_vZoom)) in
 let v_maxAltitude := (PrimFloat.add (PrimFloat.mul (of_Z (Z.add v_vIndex 1)) v_voxelHeight) v_minHeight) in
 v_maxAltitude.
 
-(* transform.convertBitToVerticalID (local minAltitude)  [transform/convert_quadkey_and_Vertical_id.go] — the value of the local variable minAltitude when control reaches the end of the function *)
+(* transform.convertBitToVerticalID (value minAltitude)  [transform/convert_quadkey_and_Vertical_id.go] — the value of the altitude argument of the 2nd of the 2 calls object.NewPoint (`minAltitude`) just before that statement *)
 Definition convertBitToVerticalID_minAltitude (v_vZoom : Z) (v_vIndex : Z) (v_outputZoom : Z) (v_maxHeight : float) (v_minHeight : float) : float :=
 let v_voxelHeight := (PrimFloat.div (PrimFloat.sub v_maxHeight v_minHeight) (pow2f v_vZoom)) in
 let v_minAltitude := (PrimFloat.add (PrimFloat.mul (of_Z v_vIndex) v_voxelHeight) v_minHeight) in
@@ -216,7 +216,7 @@ let v_maxHeight := v_borderHeight in
 let v_bitIndex := v_bit in
 (v_maxHeight, v_minHeight, v_bitIndex).
 
-(* operated.GetShiftingSpatialID (local maxIndex)  [operated/shifting_spatial_id.go] — the value of the local variable maxIndex when control reaches the end of the function, as a function of the parameters and of the final value of hZoom *)
+(* operated.GetShiftingSpatialID (value maxIndex)  [operated/shifting_spatial_id.go] — the value of the right-hand operand of the first wrap test `s > M || s < 0` (`maxIndex`) just before that statement, as a function of the parameters and of the value of hZoom *)
 Definition GetShiftingSpatialID_maxIndex (v_x : Z) (v_y : Z) (v_v : Z) (v_hZoom : Z) : (option Z) :=
 let v_maxIndex := (Ztrunc_f (PrimFloat.sub (pow2f v_hZoom) (0x1p+0)%float)) in
 v_maxIndex.
